@@ -73,12 +73,115 @@ def handleMsign (o : Op) : String :=
         | none => s!"ok fmt={txt f} v=1"
   | _, _, _ => "bad-op"
 
+
+def goKey? (o : Op) : Option GoKey :=
+  let mv (k : String) : Option Int := (o.hex? k).map mpintVal
+  match o.str "gk" with
+  | "rsa" => do let e ← mv "e"; let n ← mv "n"; pure (.rsa e n)
+  | "ecdsa" => do let b ← o.nat? "bits"; let pt ← o.hex? "pt"; pure (.ecdsa b pt)
+  | "dsa" => do let p ← mv "p"; let q ← mv "q"; let g ← mv "g"; let y ← mv "y"; pure (.dsa p q g y)
+  | "ed25519" => (o.hex? "k").map .ed25519
+  | "other" => some .other
+  | _ => none
+
+def listS (l : List Bytes) : String := if l.isEmpty then "-" else ",".intercalate (l.map txt)
+
+/-- `newpub gk=… ` / `newsigner gk=…` -/
+def handleNew (o : Op) (signer : Bool) : String :=
+  match goKey? o with
+  | none => "bad-op"
+  | some gk =>
+    match (if signer then newSignerFromKey gk else newPublicKey gk) with
+    | none => "err"
+    | some k =>
+      if signer then
+        let s := SignerM.wrapped k.type
+        s!"ok type={txt k.type} blob={toHex k.marshal} algs={listS s.algorithms} sign={match s.sign with | some f => txt f | none => "err"} v=1"
+      else s!"ok type={txt k.type} blob={toHex k.marshal} cpk=1"
+
+/-- `cpk key=<blob>`: CryptoPublicKey() of a parsed key -/
+def handleCpk (o : Op) : String :=
+  match o.hex? "key", ptsOracle? o with
+  | some kb, some po =>
+    match parsePublicKey po kb with
+    | none => "perr"
+    | some (.cert _) => "cpk=none"
+    | some (.plain k) =>
+      match k with
+      | .rsa .. => "cpk=rsa same=1"
+      | .dsa .. => "cpk=dsa same=1"
+      | .ecdsa bits _ => s!"cpk=ecdsa{bits} same=1"
+      | .ed25519 _ => "cpk=ed25519 same=1"
+      | .skecdsa .. => "cpk=ecdsa256 same=0"
+      | .sked25519 .. => "cpk=ed25519 same=0"
+  | _, _ => "bad-op"
+
+def optList? (o : Op) (k : String) : Option (Option (List Bytes)) :=
+  match o.get? k with
+  | some "none" => some none
+  | some _ => (hexList? o k).map some
+  | none => none
+
+/-- `csign ktype= r1=<none|list> present=full|algonly|signonly cert=none|match|mismatch r2=<none|list> req=` -/
+def handleCsign (o : Op) : String :=
+  match o.hex? "ktype", optList? o "r1", optList? o "r2", o.hex? "req" with
+  | some kt, some r1, some r2, some req =>
+    let s0 := SignerM.wrapped kt
+    let s1? : Option SignerM := match r1 with
+      | none => some s0
+      | some l => if newSignerWithAlgorithms kt none l then some (.multi s0 l) else none
+    match s1? with
+    | none => "bad-r1"
+    | some s1 =>
+      let s2? : Option SignerM := match o.str "present" with
+        | "full" => some s1
+        | "algonly" => some (.hidden s1 true)
+        | "signonly" => some (.hidden s1 false)
+        | _ => none
+      match s2? with
+      | none => "bad-op"
+      | some s2 =>
+        let s3? : Option (Option SignerM) := match o.str "cert" with
+          | "none" => some (some s2)
+          | "mismatch" => some none
+          | "match" => (certKeyAlgoNames.find? (fun p => p.2 = kt)).map (fun p => some (SignerM.cert p.1 s2))
+          | _ => none
+        match s3? with
+        | none => "bad-op"
+        | some none => "certerr"
+        | some (some s3) =>
+          -- is the value a *multiAlgorithmSigner (NewSignerWithAlgorithms then inherits its list)?
+          let isMultiStruct : Bool := match s3 with
+            | .multi _ _ => true
+            | .cert _ inner => inner.caps.2
+            | _ => false
+          let s4? : Option (Option SignerM) := match r2 with
+            | none => some (some s3)
+            | some l =>
+              if !s3.caps.1 then none
+              else if newSignerWithAlgorithms s3.pubType (if isMultiStruct then some s3.algorithms else none) l
+                then some (some (.multi s3 l)) else some none
+          match s4? with
+          | none => "na"
+          | some none => "newerr"
+          | some (some s4) =>
+            let caps := s4.caps
+            let algs := if caps.2 then listS s4.algorithms else "-"
+            let sg := match s4.sign with | some f => txt f | none => "err"
+            let w := if caps.1 then (match s4.signWith req with | some f => txt f | none => "refuse") else "na"
+            s!"ok type={txt s4.pubType} alg={if caps.1 then 1 else 0} multi={if caps.2 then 1 else 0} algs={algs} sign={sg} with={w} v=1"
+  | _, _, _, _ => "bad-op"
+
 def handle (line : String) : String :=
   let o := parseOp line
   match o.cmd with
   | "ver" => handleVer o
   | "nta" => handleNta o
   | "msign" => handleMsign o
+  | "newpub" => handleNew o false
+  | "newsigner" => handleNew o true
+  | "cpk" => handleCpk o
+  | "csign" => handleCsign o
   | _ => "bad-op"
 
 end XC.C40
